@@ -993,7 +993,96 @@ impl<R> NsReader<R> {
 //@end
 }
 
+/// the namespace reported with an event: for Start / Empty / End the resolution of the element name (default namespace applies) in
+/// the given scopes, `Unbound` for every other event
+pub open spec fn resolved_post<'i>(res: NamespaceResolver, ev: Event<'i>, rr: ResolveResult) -> bool {
+    match ev {
+        Event::Start(e) => rr_view(rr) == spec_resolve(res.bindings@, res.buffer@, spec_prefix_of(e.buf@.subrange(0, e.name_len as int)), true),
+        Event::Empty(e) => rr_view(rr) == spec_resolve(res.bindings@, res.buffer@, spec_prefix_of(e.buf@.subrange(0, e.name_len as int)), true),
+        Event::End(e) => rr_view(rr) == spec_resolve(res.bindings@, res.buffer@, spec_prefix_of(e.name@), true),
+        _ => rr is Unbound,
+    }
+}
+impl NamespaceResolver {
+//@extract name::NamespaceResolver::iter | src/name.rs :: impl NamespaceResolver :: fn iter | serves=C05
+ pub fn iter(&self) -> (r: PrefixIter)
+        ensures r.resolver == self, r.bindings_cursor == 2
+ {
+        PrefixIter {
+            resolver: self,
+            // We initialize the cursor to 2 to skip the two default namespaces xml: and xmlns:
+            bindings_cursor: 2,
+        }
+    }
+//@end
+}
+impl<R> NsReader<R> {
+//@extract ns_reader::NsReader::resolve_event | src/reader/ns_reader.rs :: impl<R> NsReader<R> :: fn resolve_event | serves=C05
+ pub(crate) fn resolve_event<'i>(
+        &mut self,
+        event: Result<Event<'i>>,
+    ) -> (r: Result<(ResolveResult, Event<'i>)>)
+        requires event matches Ok(ev) ==> old(self).ns_resolver.wf() && ev_wf(ev),
+        // C05: the event is handed on unchanged; a Start, Empty or End event comes with the namespace its (element) name resolves to
+        // in the CURRENT scopes -- the default namespace applies --, every other event with `Unbound`; the reader is not touched
+        ensures *final(self) == *old(self),
+            match event {
+                Err(e) => r == Result::<(ResolveResult, Event<'i>)>::Err(e),
+                Ok(ev) => r matches Ok(p) && p.1 == ev && (match ev {
+                    Event::Start(e) => rr_view(p.0) == spec_resolve(old(self).ns_resolver.bindings@, old(self).ns_resolver.buffer@, spec_prefix_of(e.buf@.subrange(0, e.name_len as int)), true),
+                    Event::Empty(e) => rr_view(p.0) == spec_resolve(old(self).ns_resolver.bindings@, old(self).ns_resolver.buffer@, spec_prefix_of(e.buf@.subrange(0, e.name_len as int)), true),
+                    Event::End(e) => rr_view(p.0) == spec_resolve(old(self).ns_resolver.bindings@, old(self).ns_resolver.buffer@, spec_prefix_of(e.name@), true),
+                    _ => p.0 is Unbound,
+                }),
+            },
+    {
+        match event {
+            Ok(Event::Start(e)) => Ok((self.ns_resolver.find(e.name()), Event::Start(e))),
+            Ok(Event::Empty(e)) => Ok((self.ns_resolver.find(e.name()), Event::Empty(e))),
+            Ok(Event::End(e)) => Ok((self.ns_resolver.find(e.name()), Event::End(e))),
+            Ok(e) => Ok((ResolveResult::Unbound, e)),
+            Err(e) => Err(e),
+        }
+    }
+//@end
+//@extract ns_reader::NsReader::prefixes | src/reader/ns_reader.rs :: impl<R> NsReader<R> :: fn prefixes | serves=C05
+ pub(crate) fn prefixes(&self) -> (r: PrefixIter)
+        // the listing starts behind the two reserved bindings (`xml`, `xmlns`)
+        ensures r.resolver == &self.ns_resolver, r.bindings_cursor == 2
+ {
+        self.ns_resolver.iter()
+    }
+//@end
+}
 impl<R: BufRead> NsReader<R> {
+//@extract ns_reader::NsReader::read_resolved_event_into | src/reader/ns_reader.rs :: impl<R: BufRead> NsReader<R> :: fn read_resolved_event_into | serves=C05
+ pub(crate) fn read_resolved_event_into<'b>(
+        &mut self,
+        buf: &'b mut Vec<u8>,
+    ) -> (r: Result<(ResolveResult, Event<'b>)>)
+        requires
+            old(self).inv(),
+            !(old(self).reader.state.state is Done) ==> old(self).reader.state.offset + old(self).reader.reader.remaining().len() <= u64::MAX,
+            old(self).reader.reader.remaining().len() <= usize::MAX,
+            // A-depth; C05 is stated for error-free reads of well-formed documents: stray end tags are not accepted
+            old(self).ns_resolver.nesting_level < i32::MAX - 1,
+            !old(self).reader.state.config.allow_unmatched_ends,
+        // C05: the event of read_event* (ns_post), together with the namespace its name resolves to in the scopes in force AFTER that
+        // read (resolved_post)
+        ensures r is Ok ==> final(self).inv(),
+            final(self).reader.state.config == old(self).reader.state.config,
+            match r {
+                Ok(p) => ns_post(old(self).reader.state, old(self).reader.reader.remaining(), old(self).reader.reader.after_bom(),
+                        final(self).reader.state, final(self).reader.reader.remaining(), final(self).reader.reader.faults() > old(self).reader.reader.faults(), Ok(p.1))
+                    && resolved_post(final(self).ns_resolver, p.1, p.0),
+                Err(e) => ns_post(old(self).reader.state, old(self).reader.reader.remaining(), old(self).reader.reader.after_bom(),
+                        final(self).reader.state, final(self).reader.reader.remaining(), final(self).reader.reader.faults() > old(self).reader.reader.faults(), Err(e)),
+            },
+    {
+        let event = self.read_event_impl(buf);
+        self.resolve_event(event)
+    }
+//@end
 //@extract ns_reader::NsReader::read_event_into | src/reader/ns_reader.rs :: impl<R: BufRead> NsReader<R> :: fn read_event_into | serves=C05
  pub(crate) fn read_event_into<'b>(&mut self, buf: &'b mut Vec<u8>) -> (r: Result<Event<'b>>)
         requires
@@ -1056,6 +1145,31 @@ impl<'i> NsReader<&'i [u8]> {
  {
         proof { lemma_fresh_stack(); }
         Self::new(Reader::from_str(s))
+    }
+//@end
+//@extract ns_reader::NsReader::read_resolved_event | src/reader/ns_reader.rs :: impl<'i> NsReader<&'i [u8]> :: fn read_resolved_event | serves=C05
+ pub(crate) fn read_resolved_event(&mut self) -> (r: Result<(ResolveResult, Event<'i>)>)
+        requires
+            old(self).inv(),
+            !(old(self).reader.state.state is Done) ==> old(self).reader.state.offset + old(self).reader.reader.remaining().len() <= u64::MAX,
+            old(self).reader.reader.remaining().len() <= usize::MAX,
+            // A-depth; C05 is stated for error-free reads of well-formed documents: stray end tags are not accepted
+            old(self).ns_resolver.nesting_level < i32::MAX - 1,
+            !old(self).reader.state.config.allow_unmatched_ends,
+        // C05: the event of read_event* (ns_post), together with the namespace its name resolves to in the scopes in force AFTER that
+        // read (resolved_post)
+        ensures r is Ok ==> final(self).inv(),
+            final(self).reader.state.config == old(self).reader.state.config,
+            match r {
+                Ok(p) => ns_post(old(self).reader.state, old(self).reader.reader.remaining(), old(self).reader.reader.after_bom(),
+                        final(self).reader.state, final(self).reader.reader.remaining(), final(self).reader.reader.faults() > old(self).reader.reader.faults(), Ok(p.1))
+                    && resolved_post(final(self).ns_resolver, p.1, p.0),
+                Err(e) => ns_post(old(self).reader.state, old(self).reader.reader.remaining(), old(self).reader.reader.after_bom(),
+                        final(self).reader.state, final(self).reader.reader.remaining(), final(self).reader.reader.faults() > old(self).reader.reader.faults(), Err(e)),
+            },
+ {
+        let event = self.read_event_impl(());
+        self.resolve_event(event)
     }
 //@end
 //@extract ns_reader::NsReader::read_event | src/reader/ns_reader.rs :: impl<'i> NsReader<&'i [u8]> :: fn read_event | serves=C05
